@@ -74,7 +74,9 @@ type Stats struct {
 	FocusedScen  int64            `json:"focused_scenarios"`
 }
 
-func NewStats() *Stats { return &Stats{Outcomes: map[string]int64{}, Races: map[string]int64{}, DoneAt: map[string]int64{}, BoundDone: -1} }
+func NewStats() *Stats {
+	return &Stats{Outcomes: map[string]int64{}, Races: map[string]int64{}, DoneAt: map[string]int64{}, BoundDone: -1}
+}
 
 func (a *Stats) Merge(b *Stats) {
 	a.Executions += b.Executions
